@@ -214,6 +214,10 @@ Inductive op :=
 | AssignCopy (i j : N) | AssignMove (i j : N)
 | AssignConvCopy (i j : N) | AssignConvMove (i j : N)
 | Emplace (i v : N) | Reset (i : N)
+(* value operations whose argument is the payload of ANOTHER wrapper, obtained with *a / a.value():
+   c = *a (mv: c = std::move( *a )) goes to the value assignment operator=(U&&), c.emplace( *a ) to emplace.
+   Dereferencing an empty wrapper is the client's error (ill-formed use). *)
+| AssignDeref (i j : N) (mv : bool) | EmplaceDeref (i j : N) (mv : bool)
 | HasValue (i : N) | Value (i : N) | ValueOr (i d : N)
 | Cmp (o : cmpop) (i j : N)
 | ToString (i : N).
@@ -261,6 +265,15 @@ Definition assign_from (s : store) (i j : N) (conv self_ok : bool) (m : M unit) 
       else call s i (w_ty wi) (w_opt wi) j (w_ty wj) (w_opt wj) (unit_out m)
   | _, _ => SIll
   end.
+(* value operation on wrapper i whose argument is *j : both alive, same payload type, j ENGAGED *)
+Definition deref_from (s : store) (i j : N) (self_ok : bool) (m : M unit) : sres :=
+  match s i, s j with
+  | Some wi, Some wj =>
+      if negb (Bool.eqb (w_ty wi) (w_ty wj)) || negb (hv (w_opt wj)) || (negb self_ok && N.eqb i j)
+      then SIll
+      else call s i (w_ty wi) (w_opt wi) j (w_ty wj) (w_opt wj) (unit_out m)
+  | _, _ => SIll
+  end.
 Definition on_alive (s : store) (i : N) (m : M out) : sres :=
   match s i with
   | Some wi => call1 s i (w_ty wi) (w_opt wi) m
@@ -295,6 +308,12 @@ Definition step (c : cfg) (s : store) (o : op) : sres :=
   | AssignMove i j => assign_from s i j false false (m_assign_wrapper c true)
   | AssignConvCopy i j => assign_from s i j true true (m_assign_wrapper c false)
   | AssignConvMove i j => assign_from s i j true true (m_assign_wrapper c false)
+  (* operator=(U&& rhs) does  value() = rhs : rhs is a named parameter, so the payload is COPY-assigned whatever the
+     value category of the argument - the source is never modified, not even when it is an xvalue *)
+  | AssignDeref i j mv => deref_from s i j true (m_assign_from (read_value (mvz c) Other false))
+  (* emplace(Args&&... args) forwards: new T(std::forward<Args>(args)...) - an xvalue argument is moved from.
+     c.emplace( *c ) would read the payload it has just destroyed: excluded as ill-formed *)
+  | EmplaceDeref i j mv => deref_from s i j false (m_emplace_from (read_value (mvz c) Other mv))
   | Emplace i v => on_alive s i (unit_out (m_emplace v))
   | Reset i => on_alive s i (unit_out m_reset)
   | HasValue i => on_alive s i (b <- has_value This ;; ret (OBool b))
